@@ -1,6 +1,7 @@
 package c14
 
 import (
+	"hv/fw"
 	"os"
 	"regexp"
 	"strings"
@@ -27,6 +28,21 @@ func TestKFLines(t *testing.T) {
 	if os.Getenv("C14_WRITE_KF") == "1" {
 		if err := os.WriteFile("proposed_known_findings.txt", []byte(sb.String()), 0o644); err != nil {
 			t.Fatal(err)
+		}
+	}
+}
+
+// TestFieldErrPrograms: every program of the fielderr family is accepted by the analyzer and ends,
+// on both back ends, in the JSON encoding error it was built for (otherwise the family would not
+// exercise what it claims to).
+func TestFieldErrPrograms(t *testing.T) {
+	for _, mixed := range []bool{false, true} {
+		for seed := uint64(1); seed <= 150; seed++ {
+			b := famFieldErr(fw.NewRng(seed), Poison{JsonMixed: mixed})
+			ob := Observe(b.Src, ObsOpts{})
+			if !ob.Ran || !strings.Contains(ob.VMOutcome, "JsonError") || !strings.Contains(ob.TreeOutcome, "JsonError") || strings.Contains(ob.VMOutput, "unreachable") {
+				t.Errorf("seed %d mixed=%v: ran=%v\ndiags: %s\nvm: %s\ntree: %s\n%s", seed, mixed, ob.Ran, ob.Diags, ob.VMOutcome, ob.TreeOutcome, b.Src["main"])
+			}
 		}
 	}
 }
